@@ -196,6 +196,9 @@ func (fg *FG) call(st *State, cc *ssa.CallCommon, in ssa.Instruction, resultOf s
 		fg.assumeTyped(rv, st)
 		results = append(results, rv)
 		env.vars[rnames[i]] = rv
+		if sig.Results().Len() == 1 {
+			env.vars["result"] = rv
+		}
 	}
 	env.st = st
 	env.old = pre
@@ -302,6 +305,7 @@ func (fg *FG) pureFuncArg(st *State, a Val, label string) Val {
 		app := fg.applyFuncValue(Val{T: fv, Ty: a.Ty}, sig, args)
 		rn := resultNames(c, sig)
 		env.vars[rn[0]] = app
+		env.vars["result"] = app
 		var pres, posts []string
 		for _, r := range c.Requires {
 			pres = append(pres, env.tr(r.E).T)
@@ -436,6 +440,9 @@ func (fg *FG) applyContract(st *State, c *Contract, callee *ssa.Function, sig *t
 		fg.assumeTyped(rv, st)
 		results = append(results, rv)
 		env.vars[rnames[i]] = rv
+		if sig.Results().Len() == 1 {
+			env.vars["result"] = rv
+		}
 	}
 	env.st = st
 	env.old = pre
